@@ -122,4 +122,21 @@ def run(tier, seed, replay):
     rep.cov["samples"] = [dict(request=l, implementation=a, model=b) for l, a, b in list(zip(lines, impl, model))[:3]]
     rep.assumptions = ["a marker removal resets the entity's setting when the tick processes it (remove_despawned); settings made between the removal and that tick are forgotten - documented as open finding D22 in DESIGN.md",
                        "hash set/map iteration order is irrelevant: drained sets are compared sorted"]
+    # Layer 1: no message carries data of a hidden entity; the applied visibility is the most recent setting
+    import simcheck
+    rc, out = build_harness(["sim"])
+    if rc != 0:
+        rep.violation("harness-build", dict(what="sim harness does not build", log=out[-2000:]), False)
+        return rep.finish()
+    kws = [dict(policy="black"), dict(policy="white"), dict(policy="black", nclients=3, weights=dict(sop=7.0)), dict(policy="white", auth="custom")]
+    o2, d2 = simcheck.sim_collect(rep, "C08", tier, rng, seed, kws, 160, 4000, oracle_props={"C08"}, known_ids=("D22",),
+                                  rule_extra=", both visibility policies with repeated and cancelling set_visibility calls")
+    if o2 and not oracle_fail:
+        f = o2[0]
+        rep.violation("oracle", dict(what="implementation violates C08 on a concrete script", problem=f["problem"], script=f.get("shrunk", f["script"])), True)
+        return rep.finish()
+    if d2 and not (oracle_fail or diverged):
+        f = d2[0]
+        rep.violation("correspondence", dict(what="Layer 1 model and implementation disagree", first_divergence=f.get("shrunk_divergence", f["divergence"]), script=f.get("shrunk", f["script"])), False)
+        return rep.finish()
     return conclude(rep, proofs_ok, oracle_fail, diverged, "RV.Vis.Visibility")
